@@ -329,7 +329,10 @@ std::vector<std::string> parse_operation_expr(const std::string& expr) {
     if (minus < sep) {
       int n_min = no_sign_atoi(expr.c_str() + start);
       int n_max = no_sign_atoi(expr.c_str() + minus + 1);
-      for (int n = n_min; n <= n_max; ++n)
+      // a range is expanded into its members: refuse absurd ones
+      if ((long long) n_max - n_min + (long long) result.size() > 1000000)
+        fail("too many operations in expression: " + expr);
+      for (long long n = n_min; n <= n_max; ++n)
         result.push_back(std::to_string(n));
     } else {
       result.emplace_back(expr, start, sep - start);
